@@ -72,12 +72,14 @@ CLAIMS = {
         "note": "Trusted as C04. tmp marks are modelled as consumed positions (source index + index path), not as mutable fields.",
     },
     "C12": {
-        "text": "Theorems over the Vars model (24, closed under the global context): single-quoted and $-free words pass through unchanged; a sole unquoted variable yields the "
+        "text": "Theorems over the Vars model (34, closed under the global context): single-quoted and $-free words pass through unchanged; a sole unquoted variable yields the "
                 "referenced words verbatim, any other mixture exactly one double-quoted word; the lookup finds only strictly earlier definitions, the innermost scope first, the last "
                 "earlier candidate within a scope, dotted paths descend, root-anchored paths start at the root; the environment is never consulted when a definition is found; the result "
                 "depends only on the part of the document before the referencing definition (truncation theorem, for document-ordered trees - and every document the parser model accepts is document-ordered: "
-                "C12_parsed_documents_are_ordered); resolution always terminates; Undefined-variable and syntax errors carry the line of the word. One refutation remains (open finding): the id-less prefix scope "
-                "of a LATER dotted definition is visible.",
+                "C12_parsed_documents_are_ordered, every object of a parsed document carries an id, the ids are 1, 2, ... in document order); resolution always terminates; Undefined-variable and syntax "
+                "errors carry the line of the word. Dotted names are covered without exception: since /repo 2398dd1 the implicit prefix scopes of a dotted name carry the id of the object they lead to, "
+                "so a LATER dotted definition is cut off like every other later object (C12_later_appended_irrelevant; for parsed documents without side condition C12_parsed_backward_only, "
+                "C12_parsed_appended_irrelevant, C12_parsed_truncation_exact). No open finding.",
         "note": "Trusted: Coq kernel, extraction, driver, harness, hand-written model of variable_substitution_proxy, resolve_variables, lexical_get; os.environ is an oracle table; "
                 "tmp marks and alias paths not modelled.",
     },
